@@ -10,6 +10,7 @@ func init() {
 	vHarnesses["vH_C04_nr_testpic2s_V300_atoFrac"] = vH_C04_nr_testpic2s_V300_atoFrac
 	vHarnesses["vH_C04_time_testpic2s_V300_ato0"] = vH_C04_time_testpic2s_V300_ato0
 	vHarnesses["vH_C04_nr_wave2997_ato0"] = vH_C04_nr_wave2997_ato0
+	vHarnesses["vH_C04_time_wave2997_ato0"] = vH_C04_time_wave2997_ato0
 	vHarnesses["vH_C04_nr_alt_V300_ato0"] = vH_C04_nr_alt_V300_ato0
 	vHarnesses["vH_C04_time_alt_V300_ato0"] = vH_C04_time_alt_V300_ato0
 	vHarnesses["vH_C04_nr_syn_irregular3_ato0"] = vH_C04_nr_syn_irregular3_ato0
@@ -22,6 +23,9 @@ func vH_C04_nr_testpic2s_V300_atoFrac() { vC04(vAsset_testpic_2s(), "V300", 0, 2
 func vH_C04_time_testpic2s_V300_ato0()  { vC04(vAsset_testpic_2s(), "V300", 1, 0) }
 func vH_C04_nr_wave2997_ato0() {
 	vC04(vAsset_WAVE_vectors_cfhd_sets_14_985_29_97_59_94_t1_2022_10_17(), "1", 0, 0)
+}
+func vH_C04_time_wave2997_ato0() {
+	vC04(vAsset_WAVE_vectors_cfhd_sets_14_985_29_97_59_94_t1_2022_10_17(), "1", 1, 0)
 }
 func vH_C04_nr_alt_V300_ato0()         { vC04(vAsset_testpic_alt_seg_dur_stl(), "V300", 0, 0) }
 func vH_C04_time_alt_V300_ato0()       { vC04(vAsset_testpic_alt_seg_dur_stl(), "V300", 1, 0) }
